@@ -29,18 +29,29 @@ type recDst struct {
 	calls     int
 	failAt    int
 	failErr   error
-	afterFail int // calls made after the failing call
+	oneShot   bool // only the failAt-th call fails; later calls succeed again
+	afterFail int  // calls made after the failing call
 	failed    bool
 	callSizes []int
+	retired   bool // a later Reset moved the Writer to another destination
+	lateBytes int  // bytes received after that
 }
 
 var errInjected = errors.New("injected destination failure")
 
 func (d *recDst) Write(p []byte) (int, error) {
 	d.calls++
+	if d.retired {
+		d.lateBytes += len(p)
+	}
 	if d.failed {
 		d.afterFail++
-		return 0, d.failErr
+		if !d.oneShot {
+			return 0, d.failErr
+		}
+		d.callSizes = append(d.callSizes, len(p))
+		d.buf.Write(p)
+		return len(p), nil
 	}
 	if d.failAt > 0 && d.calls == d.failAt {
 		d.failed = true
@@ -111,6 +122,7 @@ type wTrace struct {
 	FlushAt      []int // len(Out) after each successful Flush (current destination)
 	FlushData    []int // amount of data written when that Flush happened
 	DstAfterFail int
+	LateBytes    int // bytes written to a destination after Reset had moved the Writer away from it
 }
 
 func errClass(err error) string {
@@ -120,6 +132,8 @@ func errClass(err error) string {
 	switch {
 	case errors.Is(err, errInjected):
 		return "injected"
+	case err == errSrcWrapsEOF:
+		return "srcinjected:" + err.Error()
 	case err == io.EOF:
 		return "EOF"
 	case err == io.ErrUnexpectedEOF:
@@ -146,7 +160,11 @@ func errClass(err error) string {
 // runOps runs ops on a writer for cfg (fastgo, or the standard library when std). failAt>0 makes the
 // FIRST destination fail at its failAt-th call. Each "R" op switches to a fresh recording destination.
 func runOps(cfg WCfg, ops []Op, failAt int, std bool) (tr wTrace) {
-	dst := &recDst{failAt: failAt, failErr: errInjected}
+	oneShot := false
+	if failAt < 0 {
+		failAt, oneShot = -failAt, true
+	}
+	dst := &recDst{failAt: failAt, failErr: errInjected, oneShot: oneShot}
 	dsts := []*recDst{dst}
 	w, err := newWriter(cfg, dst, std)
 	if err != nil {
@@ -177,6 +195,7 @@ func runOps(cfg WCfg, ops []Op, failAt int, std bool) (tr wTrace) {
 			case "C":
 				r.Err = errClass(w.Close())
 			case "R":
+				dst.retired = true
 				dst = &recDst{}
 				dsts = append(dsts, dst)
 				resetWriter(w, dst)
@@ -202,6 +221,9 @@ func runOps(cfg WCfg, ops []Op, failAt int, std bool) (tr wTrace) {
 	}
 	tr.Out = tr.Outs[len(tr.Outs)-1]
 	tr.DstAfterFail = dsts[0].afterFail
+	for _, d := range dsts {
+		tr.LateBytes += d.lateBytes
+	}
 	return
 }
 
